@@ -158,6 +158,11 @@ class CGen:
 
 
 PROBES = [
+    # an ELSE IF chain whose last ELSE is empty: when no guard holds, both programs go on with the next line
+    "10 IF A=1 THEN PRINT \"ONE\" ELSE IF A=2 THEN PRINT \"TWO\" ELSE\n20 PRINT \"AFTER\"",
+    "10 IF A=1 THEN PRINT \"ONE\" ELSE IF A=2 THEN PRINT \"TWO\" ELSE IF A=3 THEN PRINT \"THREE\" ELSE :\n20 PRINT \"AFTER\"",
+    "10 IF A=1 THEN B=5 ELSE IF A=2 THEN 30 ELSE\n20 PRINT \"AFTER\";B\n30 PRINT \"END\"",
+    "10 IF A=1 THEN PRINT \"ONE\" ELSE\n20 PRINT \"AFTER\"",
     "10 IF A=1 THEN B=2.5 ELSE B=3\n20 PRINT B",
     "10 IF A=1 THEN B=.5ELSE B=1E1\n20 PRINT B",
     "10 IF A=1 THEN B=2. ELSE IF A=2 THEN B=1.5E1 ELSE 30\n20 PRINT B\n30 PRINT \"Z\"",
